@@ -186,6 +186,11 @@ def run(ctx):
                     if closes:
                         k = rng.choice(closes)
                         mon.must_reject(sml[:k] + sml[k + 1:], "missing_bracket", sml)
+                        # the same text the way an SML file ends a message (a period behind the item), and with a period or
+                        # another stray token where the bracket was: the bracket is still missing
+                        mon.must_reject(sml[:k] + sml[k + 1:] + rng.choice([" .", "\n.", " . ", ".\n"]), "missing_bracket_before_period", sml)
+                        mon.must_reject(sml[:k] + rng.choice([" . ", " .", ". ", " ] ", " ) ", " ; "]) + sml[k + 1:],
+                                        "missing_bracket_replaced_by_other_token", sml)
                     if opens:
                         k = rng.choice(opens)
                         # the type name is the token after '<'
